@@ -1,5 +1,5 @@
 SPECIFICATION Spec
-CONSTANTS U = "mc2q" F = "one"
+CONSTANTS U = "mc2q" F = "two"
 INVARIANT TypeOK
 INVARIANT Compositional
 INVARIANT RoeFalseNeverRaises
